@@ -563,6 +563,7 @@ func c06Check(c C06Case) *pbt.Violation {
 	}
 	// --- composition: Marshal / Builder / Scan
 	var p pk.Packet
+	noisePacket()
 	if pv, stack := pbt.Try(func() { p = pk.Marshal(c.ID, encs...) }); pv != nil {
 		return pbt.V(pbt.PanicKey("c06.marshal", stack), "no panic", "Marshal panicked: %v\n%s", pv, stack)
 	}
